@@ -459,3 +459,119 @@ pub fn enumerate_small() -> Vec<Skeleton> {
     }
     out
 }
+
+// ---------------------------------------------------------------------------
+// Loop sessions: "separate activations get separate locations" where the activations are the
+// iterations of a loop. Every iteration creates closures over the loop variables; the closures are
+// used after later iterations have begun and after the loop has returned.
+// ---------------------------------------------------------------------------
+
+/// one loop definition plus the forms that use the collected closures
+fn loop_family(rng: &mut Rng, tag: usize) -> Vec<String> {
+    let k = 2 + rng.usize(4);
+    let name = format!("lp{}", tag);
+    // what each iteration conses onto the accumulator
+    let (make, uses): (String, Vec<String>) = match rng.below(5) {
+        0 => (
+            "(lambda () i)".into(),
+            vec![format!("(map (lambda (p) (p)) cs{t})", t = tag)],
+        ),
+        1 => (
+            "(lambda (d) (set! i (+ i d)) i)".into(),
+            vec![
+                format!("(map (lambda (p) (p 10)) cs{t})", t = tag),
+                format!("(map (lambda (p) (p 1)) cs{t})", t = tag),
+                format!("((car cs{t}) 100)", t = tag),
+                format!("(map (lambda (p) (p 0)) cs{t})", t = tag),
+            ],
+        ),
+        2 => (
+            "(cons (lambda () i) (lambda (v) (set! i v)))".into(),
+            vec![
+                format!("(map (lambda (p) ((car p))) cs{t})", t = tag),
+                format!("((cdr (car cs{t})) 'changed)", t = tag),
+                format!("(map (lambda (p) ((car p))) cs{t})", t = tag),
+                format!("((cdr (car (reverse cs{t}))) 'last)", t = tag),
+                format!("(map (lambda (p) ((car p))) cs{t})", t = tag),
+            ],
+        ),
+        3 => (
+            "(let ((j (* i 2))) (lambda () (set! j (+ j 1)) (list i j)))".into(),
+            vec![
+                format!("(map (lambda (p) (p)) cs{t})", t = tag),
+                format!("(map (lambda (p) (p)) cs{t})", t = tag),
+            ],
+        ),
+        _ => (
+            "(lambda () (set! i (* i 10)) (list i extra))".into(),
+            vec![
+                format!("(map (lambda (p) (p)) cs{t})", t = tag),
+                format!("(map (lambda (p) (p)) cs{t})", t = tag),
+            ],
+        ),
+    };
+    // the loop shape; `extra` is a second parameter some bodies read
+    let def: Vec<String> = match rng.below(8) {
+        // direct self tail call through `if` in a top-level procedure
+        0 | 1 => vec![format!(
+            "(define ({n} i extra acc) (if (= i {k}) acc ({n} (+ i 1) extra (cons {make} acc))))",
+            n = name, k = k, make = make
+        )],
+        // through cond / when
+        2 => vec![format!(
+            "(define ({n} i extra acc) (cond ((= i {k}) acc) (else ({n} (+ i 1) extra (cons {make} acc)))))",
+            n = name, k = k, make = make
+        )],
+        // named let inside a procedure
+        3 => vec![format!(
+            "(define ({n} start extra acc0) (let loop ((i start) (acc acc0)) (if (= i {k}) acc (loop (+ i 1) (cons {make} acc)))))",
+            n = name, k = k, make = make
+        )],
+        // mutual recursion
+        4 => vec![
+            format!(
+                "(define ({n} i extra acc) (if (= i {k}) acc ({n}-b (+ i 1) extra (cons {make} acc))))",
+                n = name, k = k, make = make
+            ),
+            format!(
+                "(define ({n}-b i extra acc) (if (= i {k}) acc ({n} (+ i 1) extra (cons {make} acc))))",
+                n = name, k = k, make = make
+            ),
+        ],
+        // non-tail recursion
+        5 => vec![format!(
+            "(define ({n} i extra acc) (if (= i {k}) acc (cons {make} ({n} (+ i 1) extra acc))))",
+            n = name, k = k, make = make
+        )],
+        // tail call through apply
+        6 => vec![format!(
+            "(define ({n} i extra acc) (if (= i {k}) acc (apply {n} (+ i 1) extra (list (cons {make} acc)))))",
+            n = name, k = k, make = make
+        )],
+        // the accumulator is a vector filled through for-each over indices
+        _ => vec![format!(
+            "(define ({n} i0 extra acc) (let ((out '())) (for-each (lambda (i) (set! out (cons {make} out))) (list 0 1 2)) out))",
+            n = name, make = make
+        )],
+    };
+    let mut forms = def;
+    forms.push(format!("(define cs{t} ({n} 0 'e{t} '()))", t = tag, n = name));
+    forms.push(format!("(length cs{})", tag));
+    forms.extend(uses);
+    // a second, independent run of the loop must not disturb the first one's closures
+    if rng.chance(1, 2) {
+        forms.push(format!("(define ds{t} ({n} 1 'f{t} '()))", t = tag, n = name));
+        forms.push(format!("(length ds{})", tag));
+        forms.push(format!("(length cs{})", tag));
+    }
+    forms
+}
+
+pub fn loop_session(rng: &mut Rng) -> Vec<Sx> {
+    let n = 1 + rng.usize(2);
+    let mut texts = vec![];
+    for tag in 0..n {
+        texts.extend(loop_family(rng, tag));
+    }
+    texts.iter().map(|t| crate::sx::read_one(t).unwrap_or_else(|e| panic!("loop session text: {} in {}", e, t))).collect()
+}
